@@ -288,22 +288,30 @@ void history(std::string const &nm, P const &p, StdDist const &rd0, u64 const se
       draw_n("variate_direct", j, [&] { return v(); }, [&] { return rv(ref); }, lo, hi);
       V vc(v);
       StdDist rc(rv);
-      V va(fcppt::make_ref(g), q);
-      StdDist ra(rq0);
-      va = v;
-      ra = rv;
       V t1(v);
       V vm(std::move(t1));
       StdDist rm(rv);
-      V vma(fcppt::make_ref(g), q);
-      V t2(v);
-      vma = std::move(t2);
-      StdDist rma(rq0);
-      rma = rv;
       draw_n("variate_copy_constructed", HIST_N, [&] { return vc(); }, [&] { return rc(ref); }, lo, hi);
-      draw_n("variate_copy_assigned", HIST_N, [&] { return va(); }, [&] { return ra(ref); }, lo, hi);
       draw_n("variate_move_constructed", HIST_N, [&] { return vm(); }, [&] { return rm(ref); }, lo, hi);
-      draw_n("variate_move_assigned", HIST_N, [&] { return vma(); }, [&] { return rma(ref); }, lo, hi);
+      // Assignability of a variate is not documented (it follows from its members today): exercised only while it
+      // exists, so that a variate that becomes non-assignable does not break the check.  If it exists it must have
+      // value semantics (class B).
+      if constexpr (std::is_copy_assignable_v<V> && std::is_move_assignable_v<V>)
+      {
+        V va(fcppt::make_ref(g), q);
+        StdDist ra(rq0);
+        va = v;
+        ra = rv;
+        V vma(fcppt::make_ref(g), q);
+        V t2(v);
+        vma = std::move(t2);
+        StdDist rma(rq0);
+        rma = rv;
+        draw_n("variate_copy_assigned", HIST_N, [&] { return va(); }, [&] { return ra(ref); }, lo, hi);
+        draw_n("variate_move_assigned", HIST_N, [&] { return vma(); }, [&] { return rma(ref); }, lo, hi);
+      }
+      else
+        vrt::count("info:variate_not_assignable");
       draw_n("variate_original_after_copies", HIST_N, [&] { return v(); }, [&] { return rv(ref); }, lo, hi);
     }
   }
@@ -327,8 +335,11 @@ void history(std::string const &nm, P const &p, StdDist const &rd0, u64 const se
       d.param(q);
       rd.param(rq0.param());
       draw_n("param_set", HIST_N, [&] { return d(g); }, [&] { return rd(ref); }, qlo, qhi);
-      VRT_CHECK(d.distribution() == rd, nm + ":history:param_set:state",
-                "wrapped distribution differs from std driven the same way after %d draws + param(set) + %d draws", j, HIST_N);
+      // Information only (audit: class C).  Equality of the wrapped object's *internal state* with a std distribution
+      // driven the same way is not promised anywhere; what is promised -- the sequence after param(set) -- is the
+      // "param_set" comparison above.
+      if (!(d.distribution() == rd))
+        vrt::count("info:" + nm + ":history:param_set:state");
     }
   }
   if (ok)
